@@ -564,6 +564,16 @@ fn rand_id(rng: &mut Rng, depth: u8) -> Identifier {
 	ExtKeychain::derive_key_id(depth, rand_index(rng), rand_index(rng), rand_index(rng), rand_index(rng))
 }
 
+/// a depth byte the path cannot have: 5..=255 (boundary values favoured)
+fn deep_depth(rng: &mut Rng) -> u8 {
+	match rng.below(5) {
+		0 => 5,
+		1 => 255,
+		2 => 6,
+		_ => rng.range(5, 255) as u8,
+	}
+}
+
 fn rand_id_any(rng: &mut Rng) -> Identifier {
 	let d = rng.below(5) as u8;
 	rand_id(rng, d)
@@ -667,6 +677,7 @@ fn mutations(rng: &mut Rng, msg: &[u8], depth: u8) -> Vec<(&'static str, Vec<u8>
 	m[3] = rng.range(5, 255) as u8;
 	v.push(("depth-over-4", m));
 	// a path byte inside the used prefix / beyond it
+	let depth = depth.min(4);
 	if depth > 0 {
 		let mut m = msg.to_vec();
 		let i = 4 + rng.below(4 * depth.min(4) as u64) as usize;
@@ -805,6 +816,19 @@ fn codec(out: &mut Out, rng: &mut Rng, thorough: bool) {
 			},
 		);
 	}
+	// the path STRUCT with a depth above 4 (public field, `ExtKeychainPath::new`): last_path_index
+	// still indexes out of bounds; through an Identifier the depth is clamped
+	for d in [0u8, 1, 4, 5, 6, 200, 255].iter() {
+		let (a, b, c, e) = (rand_index(rng), rand_index(rng), rand_index(rng), rand_index(rng));
+		let r = catch(AssertUnwindSafe(|| ExtKeychainPath::new(*d, a, b, c, e).last_path_index()));
+		out.line(
+			&format!("keys pathlastidx {} {}", d, nat_list(&[a as u64, b as u64, c as u64, e as u64])),
+			&match r {
+				Ok(x) => x.to_string(),
+				Err(_) => "panic".to_string(),
+			},
+		);
+	}
 	out.raw(&format!(
 		"#STAT codec identifiers={} depth-byte histogram (0,1,2,3,4,5,6,>=7)={:?}",
 		n_ids, depth_hist
@@ -827,7 +851,8 @@ fn codec(out: &mut Out, rng: &mut Rng, thorough: bool) {
 		let is_test = kci % 4 == 0 || kci % 2 == 1;
 		let vk0 = ViewKey::create(&keychain, keychain.master.clone(), &mut hasher, is_test).unwrap();
 		for case in 0..per_kc {
-			let depth = (case % 5) as u8;
+			// every 8th case: a depth byte 5..=255 (behaves as depth 4 since the repair cb1f5b25f)
+			let depth = if case % 8 == 7 { deep_depth(rng) } else { (case % 5) as u8 };
 			let id = if case % 3 == 0 {
 				// mostly-normal small indices so that the view key can follow the path
 				ExtKeychain::derive_key_id(depth, rng.below(20) as u32, rng.below(1 << 16) as u32, rng.below(3) as u32, rng.below(2) as u32)
@@ -967,7 +992,7 @@ fn crypto(out: &mut Out, rng: &mut Rng, thorough: bool) {
 		let mut ohasher = other.hasher();
 		let ovk0 = ViewKey::create(&other, other.master.clone(), &mut ohasher, is_test).unwrap();
 		for case in 0..per_seed {
-			let depth = (case % 5) as u8;
+			let depth = if case % 9 == 8 { deep_depth(rng) } else { (case % 5) as u8 };
 			let id = match case % 4 {
 				0 => ExtKeychain::derive_key_id(depth, rng.below(10) as u32, rng.below(1 << 16) as u32, rng.below(4) as u32, rng.below(2) as u32),
 				1 => ExtKeychain::derive_key_id(depth, *rng.pick(&BOUNDARY), *rng.pick(&BOUNDARY), *rng.pick(&BOUNDARY), *rng.pick(&BOUNDARY)),
@@ -983,7 +1008,7 @@ fn crypto(out: &mut Out, rng: &mut Rng, thorough: bool) {
 				_ => rng.next(),
 			};
 			let sw = SWITCHES[(case / 5 % 2) as usize];
-			bump(format!("depth={}", depth));
+			bump(format!("depth={}", if depth > 4 { "5..255".to_string() } else { depth.to_string() }));
 			bump(format!("amount={}", amount_class(amount)));
 			bump(format!("switch={}", sw_name(sw)));
 			let tag = format!("seed#{} id={} sw={} amount={}", si, idh, sw_name(sw), amount);
@@ -1135,7 +1160,9 @@ fn crypto(out: &mut Out, rng: &mut Rng, thorough: bool) {
 	out.raw(&format!("#STAT crypto seeds={} cases={} bulletproofs created={}", n_seeds, n_seeds * per_seed, proofs));
 	out.raw(&format!("#STAT crypto distribution={:?}", stat));
 
-	// depth > 4 identifiers: constructible through the public API, derive_key indexes out of bounds
+	// depth > 4 identifiers: constructible through the public API; derive_key indexed out of bounds
+	// before the repair cb1f5b25f (recorded finding C20-depth-gt4-panic, now `fixed`): the probe line
+	// below is printed under the same condition as before, i.e. only if the panic is back
 	let keychain = ExtKeychain::from_seed(&rng.bytes(32), true).unwrap();
 	let mut probes = 0;
 	for depth in [5u8, 6, 17, 255].iter() {
@@ -1585,6 +1612,11 @@ fn viewkey(out: &mut Out, rng: &mut Rng, thorough: bool) {
 				let mut full = vkp.clone();
 				full.extend(&r);
 				cases.push(("covered", full.clone()));
+				if full.len() == 4 {
+					// the same path named by an identifier whose depth byte is 5..=255: behaves as depth 4
+					// (repair cb1f5b25f) and comes back with depth byte 4
+					cases.push(("covered-deep-depth-byte", full.clone()));
+				}
 				if rem > 0 {
 					// a hardened step below the view key
 					let mut w = full.clone();
@@ -1628,9 +1660,20 @@ fn viewkey(out: &mut Out, rng: &mut Rng, thorough: bool) {
 					cases.push(("other-branch-same-child", w));
 				}
 				for (class, words) in cases {
-					let id = id_from_words(rng, &words);
+					let id = if class == "covered-deep-depth-byte" {
+						ExtKeychain::derive_key_id(deep_depth(rng), words[0], words[1], words[2], words[3])
+					} else {
+						id_from_words(rng, &words)
+					};
 					let idh = hex(&id.to_bytes());
-					let amounts: Vec<u64> = if class == "covered" {
+					// what a covering view key must give back: the identifier, depth byte clamped to 4
+					let exp_idh = if class == "covered-deep-depth-byte" {
+						hex(&ExtKeychain::derive_key_id(4, words[0], words[1], words[2], words[3]).to_bytes())
+					} else {
+						idh.clone()
+					};
+					let covered = class.starts_with("covered");
+					let amounts: Vec<u64> = if covered {
 						vec![0, u64::MAX, 1, rng.next(), 1 << 63]
 					} else {
 						vec![u64::MAX, *rng.pick(&[0u64, 1, 1 << 32]), rng.next()]
@@ -1672,8 +1715,8 @@ fn viewkey(out: &mut Out, rng: &mut Rng, thorough: bool) {
 									continue;
 								}
 								bump!(format!("check {}:{}", class, r.split(' ').next().unwrap()));
-								let exact = format!("some {} none", idh);
-								if class == "covered" {
+								let exact = format!("some {} none", exp_idh);
+								if covered {
 									if sw == SwitchCommitmentType::None && amount != 0 {
 										if r != exact {
 											out.raw(&format!("#ORACLE-FAIL C20 matching view key does not recover the output (check_output => {}): {}", r, tag));
@@ -1702,10 +1745,10 @@ fn viewkey(out: &mut Out, rng: &mut Rng, thorough: bool) {
 							}
 							// (2) through a real bulletproof: proof::create with ProofBuilder, proof::rewind with the view key
 							let do_rewind = if thorough {
-								class == "covered" || rng.chance(1, 2)
+								covered || rng.chance(1, 2)
 							} else {
-								(class == "covered" && (ai == 1 || rng.chance(1, if ai == 0 { 2 } else { 4 })))
-									|| (class != "covered" && rng.chance(1, 6))
+								(covered && (ai == 1 || rng.chance(1, if ai == 0 { 2 } else { 4 })))
+									|| (!covered && rng.chance(1, 6))
 							};
 							if do_rewind {
 								let proof = proof::create(&keychain, &nb, amount, &id, sw, commit, None).unwrap();
@@ -1714,10 +1757,10 @@ fn viewkey(out: &mut Out, rng: &mut Rng, thorough: bool) {
 								n_rewind += 1;
 								bump!(format!("rewind {}:{}", class, r.split(' ').next().unwrap()));
 								out.line(&format!("keys vkrewind {} {} {} {}", vks, idh, sw_name(sw), amount), &r);
-								let exact = format!("some {} none {}", idh, amount);
+								let exact = format!("some {} none {}", exp_idh, amount);
 								if r == "panic" {
 									out.raw(&format!("#ORACLE-FAIL C20 proof::rewind with a view key panicked: {}", tag));
-								} else if class == "covered" {
+								} else if covered {
 									if sw == SwitchCommitmentType::None && amount != 0 {
 										if r != exact {
 											out.raw(&format!("#ORACLE-FAIL C20 matching view key does not rewind to exactly (amount, path, None) (=> {}): {}", r, tag));
